@@ -106,6 +106,24 @@ let d_handler (args : string list) : string =
             with_spec r spec)
   | _ -> "?bad-D"
 
+(* ES <call;call;…> [=<expected hex>] : a sequence of Encoder calls; S= the expectation carried by the case
+   (computed by the generator's own reference serialiser from the tree the calls were rendered from) *)
+let es_handler (args : string list) : string =
+  match args with
+  | calls :: rest ->
+      let cs = List.filter (fun x -> x <> "") (String.split_on_char ';' calls) in
+      let outs = List.map (fun c ->
+        let parts = (match String.index_opt c ':' with
+          | Some i -> [String.sub c 0 i; String.sub c (i + 1) (String.length c - i - 1)] | None -> [c]) in
+        let r = e_handler parts in
+        (match String.index_opt r '\t' with Some i -> String.sub r 0 i | None -> r)) cs in
+      let main = if List.mem "err" outs then "err" else String.concat "|" outs in
+      (match rest with
+       | e :: _ when String.length e > 0 && e.[0] = '=' -> with_spec main (String.sub e 1 (String.length e - 1))
+       | _ -> main)
+  | _ -> "?bad-ES"
+
 let () =
+  register "ES" es_handler;
   register "E" e_handler;
   register "D" d_handler
